@@ -195,11 +195,28 @@ def _expr(base, incs):
     return ' + '.join(['%du' % base] + ['%du*(H_%s)' % (c, d) for d, c in incs])
 
 
+def inc_spelling(st, includer, d):
+    """How `includer` writes its #include of header d: st['spell'] may ask for spellings that
+    are not normalised ('../<incdir>/x.h', './x.h'), which compilers copy into their depfiles
+    as they are - the same file under another name."""
+    name = st['headers'][d]['name']
+    sp = st.get('spell')
+    if not sp:
+        return name
+    k = (int(d) + len(str(includer))) % 3
+    incdir = st['incdirs'][st['headers'][d]['dir']]
+    if sp == 'dotdot' or (sp == 'mixed' and k == 0):
+        return '../%s/%s' % (incdir, name)
+    if sp == 'dot' or (sp == 'mixed' and k == 1):
+        return './' + name
+    return name
+
+
 def render_header(st, hid):
     h = st['headers'][hid]
     L = ['/* header %s */' % hid, '#ifndef G_%s' % hid, '#define G_%s' % hid]
     for d, c in h['inc']:
-        L.append('#include "%s"' % st['headers'][d]['name'])
+        L.append('#include "%s"' % inc_spelling(st, 'h' + hid, d))
     L.append('#define H_%s (%s)' % (hid, _expr(h['base'], h['inc'])))
     L.append('#endif')
     return '\n'.join(L) + '\n'
@@ -209,7 +226,7 @@ def render_pch(st):
     p = st['pch']
     L = ['/* precompiled header */', '#ifndef G_P', '#define G_P']
     for d, c in p['inc']:
-        L.append('#include "%s"' % st['headers'][d]['name'])
+        L.append('#include "%s"' % inc_spelling(st, 'pch', d))
     L.append('#define H_P (%s)' % _expr(p['base'], p['inc']))
     L.append('#endif')
     return '\n'.join(L) + '\n'
@@ -221,7 +238,7 @@ def render_tu(st, tid):
     if tid == '0':
         L.append('#include <stdio.h>')
     for d, c in t['inc']:
-        L.append('#include "%s"' % st['headers'][d]['name'])
+        L.append('#include "%s"' % inc_spelling(st, 't' + tid, d))
     terms = list(t['inc'])
     if st.get('pch') and t.get('pch'):
         terms.append(['P', t['pch']])       # H_P arrives through the compiler's -include
